@@ -130,7 +130,7 @@ def run_case(c):
         R.append(dict(call("new", {}, lambda: None, lambda _: 0), obs=proj(nc)))
         # establish the start state through the public API (explicit octaves), then the actions
         steps = [{"op": "add_name_oct", "n": x["n"], "o": x["o"]} for x in c["state"]] + c["acts"]
-        for a in steps:
+        for k_, a in enumerate(steps):
             inp = {kk: vv for kk, vv in a.items() if kk != "op"}
             rec = call(a["op"], inp, lambda: apply(nc, a), lambda _: 0)
             observe(rec, lambda: proj(nc), R[-1]["obs"] if R else [])
@@ -145,7 +145,8 @@ def run_case(c):
                 except Exception:
                     rec["others"] = rec["others"] + [{"built": before, "now": [{"n": ["?"], "o": 0}]}]
             R.append(rec)
-            if c.get("queries", True):
+            # the questions are asked after most steps, not all: every third step is followed directly by the next one
+            if c.get("queries", True) and ((k_ + c.get("cid", 0)) % 3 != 1 or k_ == len(steps) - 1):
                 q = call("query", {}, lambda: query(nc))
                 q["obs"] = []
                 R.append(q)
